@@ -59,7 +59,8 @@ def write_table(table, d):
     return path
 
 
-NAME_POOL = ["A", "a", "B", "b", "C", "D", "E", "F", "G", "H", "Slope", "slope", "Wet", "WET", "Fz", "fz", "Res", "Layer1", "Layer2", "T", "U", "V", "W", "Y", "Z", "k", "K", "m", "M"]
+NAME_POOL = ["A", "a", "B", "b", "C", "D", "E", "F", "G", "H", "Slope", "slope", "Wet", "WET", "Fz", "fz", "Res", "Layer1", "Layer2", "T", "U", "V", "W", "Y", "Z", "k", "K", "m", "M",
+             "yield", "class", "from", "pass", "lambda", "def"]       # Python keywords are ordinary result / field names in a command file
 
 
 def write_table_nc(table, path):
